@@ -261,7 +261,17 @@ func mapToString(kv map[string]string) string {
 		if i != 0 {
 			fmt.Fprint(&sb, ",")
 		}
-		fmt.Fprintf(&sb, "%s=%s", k, kv[k])
+		fmt.Fprintf(&sb, "%s=%s", keyEscaper.Replace(k), valueEscaper.Replace(kv[k]))
 	}
 	return sb.String()
 }
+
+// keyEscaper and valueEscaper make the string built by mapToString an
+// injective encoding of the map: the separators used there ("=" after a key,
+// "," between pairs) are escaped where they could be mistaken for one, so two
+// different maps never produce the same string. Values keep their commas (a
+// "," not followed by an unescaped "=" before the next "," continues a value).
+var (
+	keyEscaper   = strings.NewReplacer(`\`, `\\`, `=`, `\=`, `,`, `\,`)
+	valueEscaper = strings.NewReplacer(`\`, `\\`, `=`, `\=`)
+)
